@@ -1,4 +1,5 @@
 import LoraVerif.Lemmas.MacWFRx
+import LoraVerif.Lemmas.JoinWalk
 /-!
 Channel selection (`select_tx_channel`, dynamic and fixed plans, join and data frames) never
 panics on a well-formed plan, for every random stream: each retry loop either returns or exhausts
@@ -8,6 +9,8 @@ its draw budget (`Safe`), everything around the loops is total, and the plan it 
 open Gen.Region Gen.Modulation
 
 namespace Model
+
+theorem ok_bind' {α β} (a : α) (f : α → M β) : ((Except.ok a : M α) >>= f) = f a := rfl
 
 theorem dynJoinLoop_safe {σ} (g : Rng σ) (n fuel : Nat) (s : σ) : Safe (dynJoinLoop g n fuel s) (fun r => r.1 < n) := by
   induction fuel generalizing s with
@@ -104,91 +107,145 @@ theorem fixedMaskLoop_safe {σ} (g : Rng σ) (mask : Mask) (bits base fuel : Nat
     · simp only [Bool.false_eq_true, if_false]; exact ih _
     · simp only [if_true]; refine Safe.pure ?_; simp only; omega
 
+theorem isEnabled_spec (m : Mask) (i : Nat) (hm : m.length = 9) (hi : i < 72) :
+    Tot (m.isEnabled i) (fun b => m.isEnabled i = .ok b) := by
+  obtain ⟨b, hb, _⟩ := isEnabled_tot m i hm hi
+  exact ⟨b, hb, hb⟩
+
 theorem entropyLoop_safe {σ} (g : Rng σ) (avail : Mask) (bank fuel e used : Nat) (s : σ)
     (hm : avail.length = 9) (hb : bank ≤ 8) :
-    Safe (entropyLoop g avail bank fuel e used s) (fun r => r.1 < 72) := by
+    Safe (entropyLoop g avail bank fuel e used s)
+      (fun r => r.1 < 72 ∧ r.1 / 8 = bank ∧ avail.isEnabled r.1 = .ok true) := by
   induction fuel generalizing e used s with
   | zero => exact Safe.hang
   | succ fuel ih =>
     unfold entropyLoop
     have hlt : e % 8 < 8 := Nat.mod_lt _ (by decide)
-    refine Safe.tbind (isEnabled_tot avail _ hm (by omega)) (fun b _ => ?_)
+    refine Safe.tbind (isEnabled_spec avail (e % 8 + bank * 8) hm (by omega)) (fun b hen => ?_)
     cases b
     · simp only [Bool.false_eq_true, if_false]
       split
       · exact ih _ _ _
       · exact ih _ _ _
-    · simp only [if_true]; refine Safe.pure ?_; simp only; omega
+    · simp only [if_true]
+      exact Safe.pure ⟨by simp only; omega, by simp only; omega, hen⟩
 
+/-- the channel `get_next_inner` returns: on a fresh mask one of the 64 125-kHz channels; otherwise
+a free channel of the bank after the previous one's -/
 theorem availGetNextInner_safe {σ} (g : Rng σ) (avail : Mask) (prev : Option Nat) (s : σ) (hm : avail.length = 9) :
-    Safe (availGetNextInner g avail prev s) (fun r => r.1 < 72) := by
+    Safe (availGetNextInner g avail prev s)
+      (fun r => r.1 < 72 ∧ ∀ pv, prev = some pv → pv < 72 → r.1 / 8 = (pv / 8 + 1) % 9 ∧ avail.isEnabled r.1 = .ok true) := by
   unfold availGetNextInner
   cases prev with
   | none =>
     simp only
-    refine Safe.pure ?_
+    refine Safe.pure ⟨?_, fun pv e => by cases e⟩
     simp only
     have : (draw g s).1 % 256 % 64 < 64 := Nat.mod_lt _ (by decide)
     omega
   | some previous =>
     simp only
     have hn : (previous + 8) % 72 < 72 := Nat.mod_lt _ (by decide)
-    refine Safe.tbind (isEnabled_tot avail _ hm hn) (fun b _ => ?_)
+    refine Safe.tbind (isEnabled_spec avail _ hm hn) (fun b hen => ?_)
     cases b
     · simp only [Bool.false_eq_true, if_false]
-      exact entropyLoop_safe g avail _ _ _ _ _ hm (by omega)
-    · simp only [if_true]; exact Safe.pure hn
+      refine Safe.mono (entropyLoop_safe g avail _ _ _ _ _ hm (by omega)) ?_
+      intro r ⟨h1, h2, h3⟩
+      refine ⟨h1, fun pv e hpv => ?_⟩
+      cases e
+      exact ⟨by omega, h3⟩
+    · simp only [if_true]
+      refine Safe.pure ⟨hn, fun pv e hpv => ?_⟩
+      cases e
+      exact ⟨by simp only; omega, hen⟩
 
-theorem availGetNext_safe {σ} (g : Rng σ) (j : JoinChannels) (s : σ) (h : jcWF j = true) :
+/-- `AvailableChannels::get_next` outside the biased phase keeps the walk invariant -/
+theorem availGetNext_safe {σ} (g : Rng σ) (j : JoinChannels) (s : σ) (h : jcWF j = true)
+    (hnb : ¬ (j.preferredSubband.isSome = true ∧ j.numRetries < j.maxRetries)) :
     Safe (availGetNext g j s) (fun r => r.1 < 72 ∧ jcWF r.2.1 = true) := by
-  obtain ⟨ha, hsb⟩ := jcWF_iff.mp h
+  obtain ⟨ha, hsb, hav, _⟩ := jcWF_iff.mp h
   unfold availGetNext
-  have hap : ((if availIsExhausted j.avail = true then (Mask.default, (none : Option Nat)) else (j.avail, j.availPrev))).1.length = 9 := by
-    split
-    · rfl
-    · exact ha
-  generalize (if availIsExhausted j.avail = true then (Mask.default, (none : Option Nat)) else (j.avail, j.availPrev)) = ap at hap
-  obtain ⟨avail, prev⟩ := ap
-  simp only at hap ⊢
-  refine Safe.bind (availGetNextInner_safe g avail prev s hap) ?_
-  intro ⟨ch, s1⟩ hch
-  simp only at hch ⊢
-  refine Safe.tbind (setChannel_tot avail ch false hap hch) (fun a' ha' => ?_)
-  refine Safe.pure ⟨hch, ?_⟩
-  exact jcWF_iff.mpr ⟨ha', hsb⟩
+  have hbf : ∀ a p, biasFresh { j with avail := a, availPrev := p } = true :=
+    fun a p => biasFresh_iff.mpr (fun h1 h2 => absurd ⟨h1, h2⟩ hnb)
+  by_cases hex : availIsExhausted j.avail = true
+  · simp only [hex, if_true]
+    refine Safe.bind (availGetNextInner_safe g Mask.default none s (by decide)) ?_
+    intro ⟨ch, s1⟩ ⟨hch, _⟩
+    simp only at hch ⊢
+    obtain ⟨a', hs', hl'⟩ := setChannel_tot Mask.default ch false (by decide) hch
+    rw [hs']
+    simp only [ok_bind']
+    exact Safe.pure ⟨hch, jcWF_iff.mpr ⟨hl', hsb, avInv_first ch a' hch hs', hbf _ _⟩⟩
+  · have hex' : availIsExhausted j.avail = false := by simpa using hex
+    simp only [hex, Bool.false_eq_true, if_false]
+    refine Safe.bind (availGetNextInner_safe g j.avail j.availPrev s ha) ?_
+    intro ⟨ch, s1⟩ ⟨hch, hnext⟩
+    simp only at hch hnext ⊢
+    obtain ⟨a', hs', hl'⟩ := setChannel_tot j.avail ch false ha hch
+    rw [hs']
+    simp only [ok_bind']
+    refine Safe.pure ⟨hch, jcWF_iff.mpr ⟨hl', hsb, ?_, hbf _ _⟩⟩
+    cases hp : j.availPrev with
+    | none =>
+      rw [hp] at hav
+      have hd : j.avail = Mask.default := hav.2.2
+      rw [hd] at hs'
+      exact avInv_first ch a' hch hs'
+    | some pv =>
+      rw [hp] at hav
+      have hpv : pv < 72 := hav.2.2.1
+      obtain ⟨h1, h2⟩ := hnext pv hp hpv
+      exact avInv_next j.avail a' pv ch hav hex' hch h1 h2 hs'
 
 theorem getNextChannel_safe {σ} (g : Rng σ) (j : JoinChannels) (s : σ) (h : jcWF j = true) :
     Safe (j.getNextChannel g s) (fun r => r.1 < 72 ∧ jcWF r.2.1 = true) := by
-  obtain ⟨ha, hsb⟩ := jcWF_iff.mp h
+  obtain ⟨ha, hsb, hav, hbf⟩ := jcWF_iff.mp h
   obtain ⟨mr, nr, psb, av, avp, pc⟩ := j
-  simp only at ha hsb
+  simp only at ha hsb hav
   unfold JoinChannels.getNextChannel
   cases psb with
-  | none => simp only; exact availGetNext_safe g _ s (jcWF_iff.mpr ⟨ha, fun sb e => by cases e⟩)
+  | none =>
+    simp only
+    exact availGetNext_safe g _ s (jcWF_iff.mpr ⟨ha, (fun sb e => by cases e), hav, biasFresh_iff.mpr (fun e => by cases e)⟩)
+      (fun e => by cases e.1)
   | some sb =>
     obtain ⟨hsb1, hsb8⟩ := hsb sb rfl
+    have hsb' : ∀ sb', some sb = some sb' → 1 ≤ sb' ∧ sb' ≤ 8 := fun sb' e => by cases e; exact ⟨hsb1, hsb8⟩
     simp only
     split
-    · have hlt : (draw g s).1 % 8 < 8 := Nat.mod_lt _ (by decide)
+    · rename_i hlt'
+      have hfresh := biasFresh_iff.mp hbf rfl hlt'
+      simp only at hfresh
+      obtain ⟨rfl, rfl⟩ := hfresh
+      have hlt : (draw g s).1 % 8 < 8 := Nat.mod_lt _ (by decide)
       have hsbm : (sb - 1) % 256 = sb - 1 := Nat.mod_eq_of_lt (by omega)
       have hch : (draw g s).1 % 8 + (sb - 1) % 256 * 8 < 72 := by rw [hsbm]; omega
       have hng : ¬ (draw g s).1 % 8 + (sb - 1) % 256 * 8 > 255 := by omega
       simp only [hng, if_false]
       split
-      · refine Safe.tbind (setChannel_tot av _ false ha hch) (fun a' ha' => ?_)
+      · rename_i hlast
+        obtain ⟨a', hs', hl'⟩ := setChannel_tot Mask.default _ false (by decide) hch
+        rw [hs']
+        simp only [ok_bind']
         refine Safe.pure ⟨hch, ?_⟩
-        exact jcWF_iff.mpr ⟨ha', fun sb' e => by cases e; exact ⟨hsb1, hsb8⟩⟩
+        refine jcWF_iff.mpr ⟨hl', hsb', avInv_first _ a' hch hs', biasFresh_iff.mpr (fun _ hlt2 => ?_)⟩
+        simp only [beq_iff_eq] at hlast
+        simp only at hlt2
+        omega
       · refine Safe.pure ⟨hch, ?_⟩
-        exact jcWF_iff.mpr ⟨ha, fun sb' e => by cases e; exact ⟨hsb1, hsb8⟩⟩
-    · exact availGetNext_safe g _ s (jcWF_iff.mpr ⟨ha, fun sb' e => by cases e; exact ⟨hsb1, hsb8⟩⟩)
+        exact jcWF_iff.mpr ⟨ha, hsb', avInv_fresh, biasFresh_iff.mpr (fun _ _ => ⟨rfl, rfl⟩)⟩
+    · rename_i hge
+      exact availGetNext_safe g _ s
+        (jcWF_iff.mpr ⟨ha, hsb', hav, biasFresh_iff.mpr (fun _ hlt2 => by simp only at hlt2; omega)⟩)
+        (fun e => by have := e.2; simp only at this; omega)
 
 theorem firstDataChannel_wf {σ} (g : Rng σ) (j : JoinChannels) (s : σ) (h : jcWF j = true) :
     jcWF (j.firstDataChannel g s).2.1 = true ∧ ∀ ch, (j.firstDataChannel g s).1 = some ch → ch < 64 := by
-  obtain ⟨ha, hsb⟩ := jcWF_iff.mp h
+  obtain ⟨ha, hsb, hav, _⟩ := jcWF_iff.mp h
   unfold JoinChannels.firstDataChannel
   split
   · simp only
-    refine ⟨jcWF_iff.mpr ⟨ha, by simp [JoinChannels.clearBias]⟩, ?_⟩
+    refine ⟨jcWF_iff.mpr ⟨ha, by simp [JoinChannels.clearBias], hav, biasFresh_iff.mpr (fun e => by simp [JoinChannels.clearBias] at e)⟩, ?_⟩
     intro ch e
     cases e
     have hlt : (draw g s).1 % 8 < 8 := Nat.mod_lt _ (by decide)
